@@ -89,7 +89,7 @@ def cases(rng, tier):
     out = []
     per = 10 if tier == 'quick' else 300
     for op in gen_ops.OPS_NN:
-        for _ in range(per):
+        for _ in range(per * (4 if op in ('fold', 'unfold', 'conv2d', 'max_pool2d', 'avg_pool2d') else 1)):     # the 2-d geometry space is the largest
             out.append(op_case(rng, op))
     for _ in range(50 if tier == 'quick' else 1500):
         out.append(loss_case(rng))
